@@ -93,6 +93,8 @@ MUTANTS = [
     ("m_c14_coarse_cache", "C14", A,
      "    base_pairs, base_phosphate, base_ribose = find_pairs(tertiary_structure, model)\n    stackings = find_stackings(tertiary_structure, model)\n    return BaseInteractions(base_pairs, stackings, base_ribose, base_phosphate, [])",
      "    key = (len(tertiary_structure.residues), model)\n    if key not in _INTERACTIONS_CACHE:\n        base_pairs, base_phosphate, base_ribose = find_pairs(tertiary_structure, model)\n        stackings = find_stackings(tertiary_structure, model)\n        _INTERACTIONS_CACHE[key] = BaseInteractions(base_pairs, stackings, base_ribose, base_phosphate, [])\n    return _INTERACTIONS_CACHE[key]\n\n\n_INTERACTIONS_CACHE = {}"),
+    ("m_c14_idorder", "C14", C,
+     "        return sorted(solutions, key=lambda dot_bracket: dot_bracket.structure)", "        return sorted(solutions, key=id)"),
     ("m_c14_listset", "C14", C,
      "        return sorted(solutions, key=lambda dot_bracket: dot_bracket.structure)", "        return list(solutions)"),
     ("m_c14_csvset", "C14", A,
